@@ -28,7 +28,20 @@ func (r Runs) Bytes() []byte {
 	b := make([]byte, n)
 	off := int64(0)
 	for _, x := range r {
-		if x[0] != 0 {
+		if x[0] == 195 && x[1] >= 2 {
+			// multi-byte text: U+00C3 (C3 83) repeated, same length in BYTES (an odd run ends in "z")
+			seg := b[off : off+x[1]]
+			for i := range seg {
+				if i%2 == 0 {
+					seg[i] = 0xC3
+				} else {
+					seg[i] = 0x83
+				}
+			}
+			if len(seg)%2 == 1 {
+				seg[len(seg)-1] = 'z'
+			}
+		} else if x[0] != 0 {
 			seg := b[off : off+x[1]]
 			for i := range seg {
 				seg[i] = byte(x[0])
